@@ -72,6 +72,7 @@ instance instScalarReal : Scalar ℝ where
   toF32 := fun x => x
   isFinite := fun _ => true
   pi := Real.pi
+  mulAdd := fun a b c => a * b + c
 
 end
 
@@ -90,6 +91,7 @@ end
 @[simp] theorem scalar_exp (x : ℝ) : Scalar.exp x = Real.exp x := rfl
 @[simp] theorem scalar_ln (x : ℝ) : Scalar.ln x = Real.log x := rfl
 @[simp] theorem scalar_abs (x : ℝ) : Scalar.abs x = |x| := rfl
+@[simp] theorem scalar_mulAdd (a b c : ℝ) : Scalar.mulAdd a b c = a * b + c := rfl
 @[simp] theorem scalar_pi : (Scalar.pi : ℝ) = Real.pi := rfl
 @[simp] theorem scalar_ofInt (i : Int) : (Scalar.ofInt i : ℝ) = (i : ℝ) := rfl
 @[simp] theorem scalar_isNaN (x : ℝ) : Scalar.isNaN x = false := rfl
